@@ -96,6 +96,16 @@ class Check:
             self.violation(rule, instance, **kw)
         return cond
 
+    def anchor(self, cond, rule, instance, **kw):
+        """the construct a rule is attached to must be found; when it is not, the code is spelled in a way the rule cannot read: that is a refusal
+        (analysis error), not a violation -- nothing is known about the behaviour"""
+        if cond:
+            kw.pop('detail', None)
+            self.ok(rule, instance, **kw)
+        else:
+            self.unknown(rule, instance, f"anchor not found: expected {kw.get('expected')!r}, found {kw.get('found')!r}", kw.get('file', ''), kw.get('line', 0))
+        return cond
+
     def unknown(self, rule, instance, why, file='', line=0):
         self.errors.append(f"{rule}::{instance} at {file}:{line}: {why}")
 
